@@ -110,7 +110,7 @@ func checkC16(e *Engine, r *Report) {
 					gs = append(gs, g)
 				}
 			}
-			ks := sliceFrom(ws[0].Common().Args[0])
+			ks := backSlice(ws[0].Common().Args[0], SliceOpts{ThroughCallArgs: alwaysThrough, IntoCallees: privHelper(pkgVauthKeeper), Depth: 2})
 			okS = mustPass(save, ws[0], gs) && ks.HasCall(specKey) && hasFieldLoad(ks, "ProofExternalOwnedAccount", "Account")
 		}
 		r.Check(okS, "SaveProof › validated proof under the account's key", e.Pos(save.Pos()), "proof.ValidateBasic() == nil; key = KeyProof…(proof.Account)", "SaveProofExternalOwnedAccount writes an unvalidated proof or under a key not derived from the proof's account")
@@ -120,7 +120,22 @@ func checkC16(e *Engine, r *Report) {
 		}
 		for _, cs := range e.repoCallSites(func(c ssa.CallInstruction) bool { return isCallTo(c, specKey) }) {
 			t := topFn(cs.Fn)
-			ok := pkgPathOf(t) == pkgVauthKeeper && (t.Name() == "SaveProofExternalOwnedAccount" || t.Name() == "GetProofExternalOwnedAccount" || t.Name() == "HasProofExternalOwnedAccount")
+			isAccessor := func(f *ssa.Function) bool {
+				return pkgPathOf(f) == pkgVauthKeeper && (f.Name() == "SaveProofExternalOwnedAccount" || f.Name() == "GetProofExternalOwnedAccount" || f.Name() == "HasProofExternalOwnedAccount")
+			}
+			ok := isAccessor(t)
+			if !ok && privHelper(pkgVauthKeeper)(t) {
+				// an unexported helper shared by the three accessors (and by nobody else)
+				n := 0
+				ok = true
+				for _, hs := range e.repoCallSites(func(c ssa.CallInstruction) bool { return c.Common().StaticCallee() == t }) {
+					n++
+					if !isAccessor(topFn(hs.Fn)) {
+						ok = false
+					}
+				}
+				ok = ok && n > 0
+			}
 			r.Check(ok, "proof key user › "+fnKey(cs.Fn), e.Pos(cs.Call.Pos()), "save/get/has only", "the proof store key is used outside the keeper's save/get/has (second writer or a deleter)")
 		}
 		// no Delete on the vauth store
@@ -461,7 +476,7 @@ func checkC16(e *Engine, r *Report) {
 		r.Check(ok, "992c › nested vesting messages screened", e.Pos(dec.Pos()), "checkDisabledMsgs inspects every message and recurses into MsgExec", why)
 	})
 
-	r.Rule("R4", "KEY-INJECTIVE", "a proof is stored and looked up under a key that is injective in the account address (prefix ‖ the full address bytes): HasProof(a) can hold only for the very address whose proof was stored; the keeper's Save/Has/Get build their key with that one builder from their address argument", 4, func() {
+	r.Rule("R4", "KEY-INJECTIVE", "a proof is stored and looked up under a key that is injective in the account address (prefix ‖ the full address bytes): HasProof(a) can hold only for the very address whose proof was stored; the keeper's Save/Has/Get build their key with that one builder from their address argument", 2, func() {
 		e.checkKeyBuilders(r, pkgVauthTypes, []string{"KeyProofExternalOwnedAccountByAddress"}, "HasProofExternalOwnedAccount answers true for an address that never proved ownership (any address sharing the truncated bytes of a proven one): a vesting account can be created for it")
 		spec := CallSpec{pkgVauthTypes, "", "KeyProofExternalOwnedAccountByAddress"}
 		n := 0
